@@ -134,3 +134,47 @@ C["kneeliverse.lmethod.knee#none"] = dict(_LK, requires=["len(points) >= 5", "li
 C["kneeliverse.lmethod.knee#original"] = dict(_LK, requires=["len(points) >= 5", "limit >= 4", "it is Refinement.original"],
     # refine only while the knee moves left: the knee is a strictly decreasing integer >= 2 until the loop is told to stop
     loops={0: dict(inv=_INV, var="ite(done, 0, current_knee + 1)")})
+
+
+# ---------------------------------------------------------------- C03: the Menger detector on an exact two-slope elbow
+# lemma over menger.knee's contract (C09): on a curve made of two straight arms with distinct slopes meeting at an interior corner c
+# (any real slopes, any increasing spacing - the statement's dyadic family is the part of it on which floating point is exact),
+# every other interior triple is collinear (curvature 0) and the corner triple is not (curvature > 0): the detector returns c
+LEMMAS = globals().get("LEMMAS", {})
+_MK = C["kneeliverse.menger.knee"]
+_ELBOW = ["len(points) >= 3", "forall2(0, len(points), lambda a, b: points[a][0] < points[b][0])",
+          "1 <= c and c <= len(points) - 2", "s1 != s2",
+          # two straight arms: every segment up to the corner has slope s1, every segment after it slope s2
+          "forall(1, c + 1, lambda i: points[i][1] - points[(i)-1][1] == s1 * (points[i][0] - points[(i)-1][0]))",
+          "forall(c + 1, len(points), lambda i: points[i][1] - points[(i)-1][1] == s2 * (points[i][0] - points[(i)-1][0]))"]
+_GEOM = ["forall(1, c, lambda j: CRS(j) == 0)",
+         "forall(c + 1, len(points) - 1, lambda r: CRS(r) == 0)",
+         "CRS(c) != 0",
+         "forall(1, len(points) - 1, lambda j: ABC(j) > 0)"]
+# part 1 (geometry only): away from the corner consecutive triples are collinear, at the corner they are not; squared side lengths are positive
+LEMMAS["menger_elbow_geometry"] = dict(
+    context="kneeliverse.menger.knee", owner="C03", mode="R", spec_funs=MSPEC,
+    vars={"points": PTS, "c": "Int", "s1": "Real", "s2": "Real"},
+    hyps=_ELBOW,
+    steps=[
+        "forall(1, c, lambda j: points[j][1] - points[(j)-1][1] == s1 * (points[j][0] - points[(j)-1][0]) and points[j+1][1] - points[(j+1)-1][1] == s1 * (points[j+1][0] - points[(j+1)-1][0]))",
+        "forall(c + 1, len(points) - 1, lambda r: points[r][1] - points[(r)-1][1] == s2 * (points[r][0] - points[(r)-1][0]) and points[r+1][1] - points[(r+1)-1][1] == s2 * (points[r+1][0] - points[(r+1)-1][0]))",
+        "points[c][1] - points[(c)-1][1] == s1 * (points[c][0] - points[(c)-1][0]) and points[c+1][1] - points[(c+1)-1][1] == s2 * (points[c+1][0] - points[(c+1)-1][0])",
+        "forall(1, len(points) - 1, lambda j: points[j-1][0] < points[j][0] and points[j][0] < points[j+1][0])",
+        "CRS(c) == (points[c][0] - points[c-1][0]) * (points[c+1][0] - points[c][0]) * (s1 - s2)",
+    ],
+    goal=_GEOM,
+)
+# part 2: from menger.knee's postcondition (C09) and the conclusions of part 1 (verbatim, as hypotheses) the detector returns the corner
+LEMMAS["menger_elbow_corner"] = dict(
+    context="kneeliverse.menger.knee", owner="C03", mode="R", spec_funs=MSPEC,
+    vars={"points": PTS, "result": "Int", "CV": "Seq[Real]", "c": "Int", "s1": "Real", "s2": "Real"},
+    hyps=["len(points) >= 3", "1 <= c and c <= len(points) - 2"] + _GEOM + list(_MK["ensures"]),
+    steps=[
+        "forall(1, len(points) - 1, lambda j: implies(j != c, sq(CV[j]) * ABC(j) == 0))",
+        "forall(1, len(points) - 1, lambda j: implies(j != c, CV[j] == 0))",
+        "sq(CV[c]) * ABC(c) > 0",
+        "CV[c] > 0",
+    ],
+    goal=["result == c"],
+)
